@@ -41,6 +41,17 @@ def cases(draw, tier="quick"):
     return {"spec": spec, "base": base, "mods": sorted(mods), "seed": draw(st.integers(0, 2 ** 31))}
 
 
+def fixed_cases(tier):
+    """Regressions of repaired defect D1 (a02030d): later runs starting below zero, first run at the type MIN."""
+    out = []
+    for r, vals in (("i8", [-10, -5, -4, 3]), ("i8", [-128, -127, -3, -2, 100]), ("i16", [-32768, -5, -4, -1, 0, 7]),
+                    ("i64", [-2 ** 63, -2 ** 63 + 1, -9, -8, 5]), ("isize", [-7, -6, -2, 4, 5])):
+        spec = {"repr": r, "vis": "pub", "ident": "E", "enum_attrs": [],
+                "variants": [{"ident": "V%d" % i, "disc": str(v), "rename": ("n %d" % i if i % 2 else None)} for i, v in enumerate(vals)]}
+        out.append({"spec": spec, "base": S.simple_config([]), "mods": list(range(len(VARIANTS))), "seed": 0})
+    return out
+
+
 def run_case(case):
     out = J.Outcome()
     spec = case["spec"]
